@@ -75,7 +75,7 @@ theorem parseUnsignedDecimal_showNat (n : Nat) : parseUnsignedDecimal (showNat n
     | cons _ _ => rfl
   unfold parseUnsignedDecimal
   simp only [takeWhile_all isDigit _ hall, dropWhile_all isDigit _ hall, hemp, Bool.false_and,
-    Bool.false_eq_true, if_false, parseExponent, List.append_nil, digitsVal_showNat, List.length_nil]
+    Bool.false_eq_true, if_false, parseExponent, fracPart, List.append_nil, digitsVal_showNat, List.length_nil]
 
 /-- `"<digits of n>".parse::<f64>()` is `n` (as a rational; exactness flag aside) -/
 theorem parseF64_showNat (n : Nat) (hn : (n : Rat) < ((2 ^ 1024 : Nat) : Rat)) :
@@ -106,6 +106,118 @@ theorem parseF64_showNat (n : Nat) (hn : (n : Rat) < ((2 ^ 1024 : Nat) : Rat)) :
       exact Rat.neg_lt_iff.mp (by simpa using this)
     exact absurd (Rat.le_trans hpos h) (Rat.not_le.mpr hbig)
   simp only [h1, h2, if_false]
+
+
+/-! ### a number followed by a unit word is no integer and no float literal -/
+
+theorem takeWhile_append_stop {α : Type} (p : α → Bool) (l : List α) (c : α) (r : List α)
+    (h : l.all p = true) (hc : p c = false) : (l ++ c :: r).takeWhile p = l ∧ (l ++ c :: r).dropWhile p = c :: r := by
+  induction l with
+  | nil => simp [List.takeWhile, List.dropWhile, hc]
+  | cons x xs ih =>
+    simp only [List.all_cons, Bool.and_eq_true] at h
+    simp [List.takeWhile, List.dropWhile, h.1, ih h.2]
+
+/-- the first character of a unit word: a letter that is no digit, no `.`, no `e`/`E` -/
+def unitHead (c : Char) : Bool := isDigit c == false && c != '.' && c != 'e' && c != 'E' && c != '+' && c != '-'
+
+theorem parseNat_with_unit (n : Nat) (c : Char) (r : Str) (hc : isDigit c = false) :
+    parseNat? (showNat n ++ c :: r) = none := by
+  have hplus := showNat_head_not_plus n
+  have hne := showNat_ne_nil n
+  cases hs : showNat n with
+  | nil => exact absurd hs hne
+  | cons x xs =>
+    have hx : x ≠ '+' := by intro hx; subst hx; exact hplus xs hs
+    have hall : (x :: (xs ++ c :: r)).all isDigit = false := by
+      simp [List.all_append, hc]
+    simp only [List.cons_append]
+    unfold parseNat?
+    split
+    · rename_i t heq; simp at heq; exact absurd heq.1 hx
+    · simp [hall]
+
+theorem parseI64_with_unit (n : Nat) (c : Char) (r : Str) (hc : isDigit c = false) :
+    parseI64? (showNat n ++ c :: r) = none := by
+  have hminus := showNat_head_not_minus n
+  have hne := showNat_ne_nil n
+  unfold parseI64? parseInt?
+  cases hs : showNat n with
+  | nil => exact absurd hs hne
+  | cons x xs =>
+    have hx : x ≠ '-' := by intro hx; subst hx; exact hminus xs hs
+    simp only [List.cons_append]
+    split
+    · rename_i t heq; simp at heq; exact absurd heq.1 hx
+    · have := parseNat_with_unit n c r hc
+      rw [hs] at this
+      simp only [List.cons_append] at this
+      simp [this]
+
+theorem parseUsize_with_unit (n : Nat) (c : Char) (r : Str) (hc : isDigit c = false) :
+    parseUsize? (showNat n ++ c :: r) = none := by
+  unfold parseUsize? parseU64?
+  simp [parseNat_with_unit n c r hc]
+
+theorem fracPart_letter (c : Char) (r : Str) (hdot : ¬ c = '.') : fracPart (c :: r) = ([], c :: r) := by
+  unfold fracPart
+  split
+  · rename_i t heq; simp at heq; exact absurd heq.1 hdot
+  · rfl
+
+theorem parseUnsignedDecimal_stop (ds : Str) (c : Char) (r : Str) (hall : ds.all isDigit = true) (hemp : ds.isEmpty = false)
+    (hd : isDigit c = false) (hdot : ¬ c = '.') (he : ¬ c = 'e') (hE : ¬ c = 'E') :
+    parseUnsignedDecimal (ds ++ c :: r) = none := by
+  obtain ⟨ht, hdr⟩ := takeWhile_append_stop isDigit ds c r hall hd
+  have h1 : (c == 'e') = false := by simp [he]
+  have h2 : (c == 'E') = false := by simp [hE]
+  unfold parseUnsignedDecimal
+  simp [ht, hdr, fracPart_letter c r hdot, hemp, parseExponent, h1, h2]
+
+theorem parseF64_with_unit (n : Nat) (c : Char) (r : Str) (hc : unitHead c = true) :
+    parseF64? (showNat n ++ c :: r) = none := by
+  simp only [unitHead, Bool.and_eq_true, beq_iff_eq, bne_iff_ne, ne_eq] at hc
+  obtain ⟨⟨⟨⟨⟨hd, hdot⟩, he⟩, hE⟩, hp⟩, hm⟩ := hc
+  have hall := showNat_all_digits n
+  have hne := showNat_ne_nil n
+  have hminus := showNat_head_not_minus n
+  have hplus := showNat_head_not_plus n
+  have hsign : splitSign (showNat n ++ c :: r) = (false, showNat n ++ c :: r) := by
+    cases hs : showNat n with
+    | nil => exact absurd hs hne
+    | cons x xs =>
+      have h1 : x ≠ '-' := by intro hx; subst hx; exact hminus xs hs
+      have h2 : x ≠ '+' := by intro hx; subst hx; exact hplus xs hs
+      simp only [List.cons_append]
+      unfold splitSign
+      split
+      · rename_i t heq; simp at heq; exact absurd heq.1 h1
+      · rename_i t heq; simp at heq; exact absurd heq.1 h2
+      · rfl
+  -- the lower-cased text starts with a digit: none of the special words
+  have hword : ∀ w : Str, (∃ a t, w = a :: t ∧ isDigit a = false) → (lowerStr (showNat n ++ c :: r) == w) = false := by
+    intro w ⟨a, t, hw, ha⟩
+    cases hs : showNat n with
+    | nil => exact absurd hs hne
+    | cons x xs =>
+      have hxd : isDigit x = true := by
+        have := hall; rw [hs] at this; simp only [List.all_cons, Bool.and_eq_true] at this; exact this.1
+      have hlx : lowerAscii x = x := by
+        have := lowerStr_digits [x] (by simp [hxd])
+        simpa [lowerStr] using this
+      subst hw
+      simp only [List.cons_append, lowerStr, List.map_cons, hlx]
+      have : x ≠ a := by intro h; subst h; rw [hxd] at ha; contradiction
+      simp [this]
+  unfold parseF64?
+  simp only [hsign, hword (ofS "inf") ⟨'i', _, rfl, by decide⟩, hword (ofS "infinity") ⟨'i', _, rfl, by decide⟩,
+    hword (ofS "nan") ⟨'n', _, rfl, by decide⟩, Bool.or_self, Bool.false_eq_true, if_false]
+  obtain ⟨ht, hdr⟩ := takeWhile_append_stop isDigit (showNat n) c r hall hd
+  have hemp : (showNat n).isEmpty = false := by
+    cases h : showNat n with
+    | nil => exact absurd h hne
+    | cons _ _ => rfl
+  rw [parseUnsignedDecimal_stop (showNat n) c r hall hemp hd hdot he hE]
 
 end NumL
 end Fsel
